@@ -145,6 +145,61 @@ pub fn c19(a: &Analysis) -> Vec<Violation> {
                 }
             }
         }
+        // (d) timers count only un-suspended time: a limit fault declared after a suspension needs
+        // limit x timeout of un-suspended time since the earliest instant its timer can have been
+        // armed (the first EOF / Finished / NAK for the ACK and NAK limits, the start of the
+        // transaction for the inactivity limit - deliberately the weakest admissible start)
+        for (side, ent, sender) in [(&t.at_src, Some(t.src_ent), true), (&t.at_dst, t.dst_ent, false)] {
+            let Some(ent) = ent else { continue };
+            if !sc.ents[ent].real {
+                continue;
+            }
+            let ws = windows(side, &user_suspends(a, ent, t));
+            if ws.is_empty() {
+                continue;
+            }
+            let e = &sc.ents[ent];
+            let role = if sender { "sender" } else { "receiver" };
+            let end = side.inds.iter().find(|i| matches!(&i.ind, Indication::Report(r) if r.state == cfdp_core::transaction::TransactionState::Terminated)).map(|i| i.seq).unwrap_or(u64::MAX);
+            for fi in side.inds.iter().filter(|i| i.seq < end) {
+                let Indication::Fault(f) = &fi.ind else { continue };
+                use cfdp_core::pdu::Condition::*;
+                // a PDU is created before it is logged (up to two PDUs wait between the transaction
+                // and the link: the single-slot channel and the transport's hand-over); the timer is
+                // armed at creation, which is not earlier than the log instant of the PDU two places
+                // before it (or the start of the transaction)
+                let t_start = side.inds.first().map(|i| i.vt).unwrap_or(0);
+                let first_sent = |k: Kind| side.sent.iter().position(|s| s.kind == k).map(|ix| if ix >= 2 { side.sent[ix - 2].vt } else { t_start.min(side.sent[0].vt) });
+                let (t_s, start) = match f.condition {
+                    PositiveLimitReached => (e.t_ack, first_sent(if sender { Kind::Eof } else { Kind::Fin })),
+                    NakLimitReached => (e.t_nak, first_sent(Kind::Nak)),
+                    InactivityDetected => (e.t_inact, side.inds.first().map(|i| i.vt)),
+                    _ => continue,
+                };
+                let Some(start) = start else { continue };
+                let tf = fi.vt;
+                if start >= tf {
+                    continue;
+                }
+                let susp: u64 = ws.iter().map(|w| w.3.min(tf).saturating_sub(w.2.max(start))).sum();
+                if susp == 0 {
+                    continue; // no suspension in between: C17's subject
+                }
+                let need = e.limit as u64 * t_s.max(0) as u64 * 1_000_000;
+                let had = (tf - start).saturating_sub(susp);
+                if had + 5_000 < need {
+                    out.push(vv(
+                        "C19",
+                        "limit_fault_counts_suspended_time",
+                        format!("{}/{:?}", role, f.condition),
+                        format!(
+                            "txn {:?}: the {} declared {:?} at {}us; since its timer can first have been armed ({}us) only {}us of un-suspended time passed ({}us were spent suspended), limit {} x timeout {}s",
+                            t.key, role, f.condition, tf, start, had, susp, e.limit, t_s
+                        ),
+                    ));
+                }
+            }
+        }
         // (c) resume completes like an unsuspended transfer: short suspensions inside the C02 envelope
         let put = &sc.puts[pi];
         if !put.unack && sc.ents[put.src].real && sc.ents[put.dst].real {
